@@ -46,14 +46,15 @@ struct RunnerCase {
 };
 
 // small alphabet: substring / equality / prefix / case relations are frequent
-static const char* const K[] = { "A", "B", "AB", "BA", "ABA", "AA", "BB", "ABAB", "BAB", "a", "Ab", "A B", "A.B", "\xC3\x84" "B", "AB\xFF", "" };
+// "AAB" / "AAAB" / "ABABB": an occurrence that starts inside a failed partial match (self-overlapping prefix)
+static const char* const K[] = { "A", "B", "AB", "BA", "ABA", "AA", "BB", "ABAB", "BAB", "a", "Ab", "A B", "A.B", "\xC3\x84" "B", "AB\xFF", "", "AAB", "AAAB", "ABB", "ABABB" };
 static const size_t NK = sizeof(K) / sizeof(K[0]);
-static const char* const K2[] = { "A", "B", "AB", "BA", "ABA", "" };
+static const char* const K2[] = { "A", "B", "AB", "BA", "ABA", "", "AAB", "AAAB" };
 static const size_t NK2 = sizeof(K2) / sizeof(K2[0]);
 static const char* const K3[] = { "A", "B", "AB" };
 static const size_t NK3 = 3;
 // strings that are safe to put on a command line in attached and separated form (non-empty, no leading '-')
-static const char* const KR[] = { "A", "B", "AB", "BA", "ABA", "AA", "ABAB", "a", "Ab", "A B", "A.B", "AB\xFF" };
+static const char* const KR[] = { "A", "B", "AB", "BA", "ABA", "AA", "ABAB", "a", "Ab", "A B", "A.B", "AB\xFF", "AAB", "AAAB", "ABB", "ABABB" };
 static const size_t NKR = sizeof(KR) / sizeof(KR[0]);
 
 // ---------------------------------------------------------------- the model (independent of cpputest)
